@@ -26,4 +26,6 @@ def run(prog, rep, tier):
     apply(rep, "P2c", "stack accessors never read outside the value vector", r_core.p2c(prog), 5)
     apply(rep, "Y4", "%destructor for owning semantic values", r_life.y4(prog), 3)
     apply(rep, "Y5", "no throw through bison/flex C frames", r_life.y5(prog), 2)
+    import r_pure as _rpq
+    apply(rep, "Q4c", "a copied sequence owns its elements: `add` moves elements out of / appends into storage that no other live value can reach (no null element, no growth behind another holder's back)", _rpq.q4c(prog), 3)
     maybe_mutants("C13", rep, tier)
